@@ -166,6 +166,26 @@ func expectedUniversalTag(t reflect.Type, params fieldParameters) (tag uint64, o
 	return 0, false
 }
 
+// matchMember reports whether the element with header tal is the one for a struct member of
+// type t: by tagNum when the member declares one, otherwise by the universal tag of its type.
+func matchMember(t reflect.Type, params fieldParameters, tal tagAndLen) bool {
+	if params.tagNumber != nil {
+		return *params.tagNumber == tal.tagNumber
+	}
+	for {
+		if t.Kind() == reflect.Ptr {
+			t = t.Elem()
+		} else if t.Kind() == reflect.Struct && t.NumField() > 0 &&
+			(t.Field(0).Name == "Value" || t.Field(0).Name == "List") {
+			t = t.Field(0).Type
+		} else {
+			break
+		}
+	}
+	expected, ok := expectedUniversalTag(t, params)
+	return ok && tal.class == ClassUniversal && tal.tagNumber == expected
+}
+
 // ParseField is the main parsing function. Given a byte slice containing type value,
 // it will try to parse a suitable ASN.1 value out and store it
 // in the given Value. TODO : ObjectIdenfier
@@ -348,7 +368,7 @@ func ParseField(v reflect.Value, bytes []byte, params fieldParameters) error {
 					if params.openType {
 						return fmt.Errorf("OpenType is not implemented")
 					}
-					if structParams[current].tagNumber != nil && *structParams[current].tagNumber == talNow.tagNumber {
+					if matchMember(structType.Field(current).Type, structParams[current], talNow) {
 						if err = ParseField(val.Field(current), bytes[offset:next], structParams[current]); err != nil {
 							return err
 						}
@@ -378,7 +398,7 @@ func ParseField(v reflect.Value, bytes []byte, params fieldParameters) error {
 					if params.openType {
 						return fmt.Errorf("OpenType is not implemented")
 					}
-					if structParams[current].tagNumber != nil && *structParams[current].tagNumber == talNow.tagNumber {
+					if matchMember(structType.Field(current).Type, structParams[current], talNow) {
 						if parse_err1 := ParseField(val.Field(current), bytes[offset:next], structParams[current]); parse_err1 != nil {
 							return parse_err1
 						}
